@@ -25,9 +25,29 @@ def crash_corpus(n, seed):
     out = []
     for i in range(n):
         cfg = dict(CRASH_CFGS[i % len(CRASH_CFGS)])
-        b = G.gen_behaviour(r, "crashw", "tiny", "cw%d" % i, cfg, length=r.randint(5, 11))
+        if i % 4 == 3:
+            # rejected appends on fresh topics leave allocated-but-empty blocks behind: recovery after a
+            # crash must still find everything allocated after them
+            b = G.gen_behaviour(r, "reject", "tiny", "cw%d" % i, cfg, length=r.randint(6, 12))
+            b["ops"] = [o for o in b["ops"] if o.get("op") not in ("fault", "clear_fault", "reopen") and not o.get("maybe")]
+        else:
+            b = G.gen_behaviour(r, "crashw", "tiny", "cw%d" % i, cfg, length=r.randint(5, 11))
         b["cfg"]["proj"] = False
         out.append(b)
+    # runs of allocated-but-empty blocks (rejected first operations on fresh topics) followed by written
+    # blocks in the same file
+    for j in range(max(2, n // 12)):
+        order = ["b", "c"] if j % 2 == 0 else ["c", "b"]
+        ops = [{"op": "append", "t": "a", "id": 1, "size": r.choice([100, 300, 700])}]
+        for k, t in enumerate(order):
+            ops.append(r.choice([{"op": "batch", "t": t, "es": [[100 + 10 * k + q, 10] for q in range(7)], "bad": True},
+                                 {"op": "append", "t": t, "id": 100 + 10 * k, "size": 7937 + r.choice([0, 1, 400]), "bad": True},
+                                 {"op": "batch", "t": t, "es": [], "bad": True}]))
+        ops.append({"op": "append", "t": "a", "id": 2, "size": 1792})
+        ops.append({"op": "append", "t": "a", "id": 3, "size": r.choice([100, 500])})
+        ops.append({"op": "read", "t": "a", "ckpt": True})
+        out.append({"id": "cwer%d" % j, "cfg": {"backend": "fd" if j % 2 == 0 else "mmap", "mode": "strict", "pe": 1, "fsync": "ms200",
+                                                "topics": ["a", "b", "c"], "proj": False}, "ops": ops})
     # AtLeastOnce consumers draining a tail block with read_next: the persisted position must not lag
     # more than persist_every reads behind (C09)
     for j, (pe, k) in enumerate([(2, 5), (3, 6), (2, 7), (3, 5)][:max(2, n // 12)]):
